@@ -3,6 +3,7 @@ package mc
 import (
 	"context"
 	"fmt"
+	"strings"
 
 	"github.com/element-of-surprise/coercion/workflow"
 	"github.com/element-of-surprise/coercion/workflow/storage"
@@ -144,6 +145,11 @@ func (v *GateVault) Read(ctx context.Context, id uuid.UUID) (*workflow.Plan, err
 		op = fmt.Sprintf("Read:%x", hashStr(View(p).Digest()))
 	}
 	v.read(g, op, path, err)
+	if v.w.Sc.SlowReads && strings.HasPrefix(g.Thread, "api#") {
+		// a slow store answer: the caller holds a copy that may be stale by the time it acts on it
+		rg := &Gate{Thread: g.Thread, Kind: "RR", Path: path, Detail: "", Site: g.Site, Releasable: true}
+		v.w.park(rg, nil)
+	}
 	return p, err
 }
 
